@@ -84,7 +84,7 @@ def correspondence(ctx):
             reqs.append("rd.rsub %s %s" % (w, t)); exp.append(L.run(lambda: x - d, L.t_show))
         if i % 5 == 0:
             reqs.append("rd.add %s %s" % (w, t)); exp.append(L.run(lambda: d + x, L.t_show))
-    # the constructor's yearday / nlyearday conversion (used by yearday_spec_partial, nlyearday_spec, yearday366_defect)
+    # the constructor's yearday / nlyearday conversion (used by yearday_spec, nlyearday_spec, yearday366_nonleap_clips)
     reqs.append("rd.ydayidx"); exp.append("ok " + L.vlib.ilist(L.source_ydayidx() or []))
     for key in ("yearday", "nlyearday"):
         for v in list(range(-2, 370)) + [400, 10 ** 6]:
@@ -260,11 +260,13 @@ def oracle(ctx):
         leap = calendar.isleap(y)
         x = datetime.date(y, rng.randint(1, 12), rng.randint(1, 28))
         for nday in range(1, 367):
-            if nday == 366 and not leap:
-                continue
             ctx.case(("yearday", y, nday)); ctx.count("yearday_cases")
             res = L.run(lambda: x + relativedelta(yearday=nday), L.t_wire)
-            e = datetime.date(y, 1, 1) + datetime.timedelta(days=nday - 1)
+            if nday == 366 and not leap:
+                # no day 366 in this year: the day is clipped to the end of December (theorem yearday366_nonleap_clips)
+                e = datetime.date(y, 12, 31)
+            else:
+                e = datetime.date(y, 1, 1) + datetime.timedelta(days=nday - 1)
             if res != "ok " + L.t_wire(e):
                 ctx.violation("yearday=%d in %d gives %s, day %d of that year is %s" % (nday, y, res, nday, e),
                               {"law": "yearday", "year": y, "yearday": nday, "leap": leap, "x": L.t_wire(x), "res": res})
@@ -276,6 +278,28 @@ def oracle(ctx):
             if res != "ok " + L.t_wire(e):
                 ctx.violation("nlyearday=%d in %d gives %s, expected %s" % (nday, y, res, e),
                               {"law": "nlyearday", "year": y, "nlyearday": nday, "x": L.t_wire(x)})
+
+    # regression stream for the repaired D-C03-yearday366: the LAST day of the year through yearday=365/366 in every kind of
+    # year, on date / naive / aware operands (time of day and kind kept), together with a relative part
+    for _ in range(ctx.budget(600, 6000)):
+        y = rng.choice([4, 400, 1600, 1896, 1900, 1904, 2000, 2004, 2023, 2024, 2096, 2100, 2104, 2400, 9996, 9999,
+                        rng.randint(1, 9999)])
+        leap = calendar.isleap(y)
+        x = L.g_temporal(rng)
+        try:
+            x = x.replace(year=y)
+        except ValueError:
+            x = x.replace(year=y, day=28)
+        nday = rng.choice([366, 366, 365, 60, 59])
+        ctx.case(("yearday_366", L.t_wire(x), nday)); ctx.count("yearday_366_cases" + ("_leap" if leap else "_nonleap"))
+        res = L.run(lambda: x + relativedelta(yearday=nday), L.t_wire)
+        ed = datetime.date(y, 12, 31) if (nday == 366 and not leap) else datetime.date(y, 1, 1) + datetime.timedelta(days=nday - 1)
+        e = x.replace(year=ed.year, month=ed.month, day=ed.day)
+        if isinstance(e, datetime.datetime):
+            e = e.replace(fold=0)
+        if res != "ok " + L.t_wire(e):
+            ctx.violation("yearday=%d on %s gives %s, expected %s" % (nday, x, res, e),
+                          {"law": "yearday", "year": y, "yearday": nday, "leap": leap, "x": L.t_wire(x), "res": res})
 
 
 def fields_to_kw(tok):
@@ -292,12 +316,7 @@ def fields_to_kw(tok):
     return {k: v for k, v in kw.items() if v is not None}
 
 
-KNOWN = {
-    # yearday=366 in a leap year: the day is clipped to Dec 31 *before* leapdays=-1 is applied -> Dec 30
-    # tight: the class AND the observed result is exactly the one the model proves (C03.yearday366_defect: day 365 = Dec 30)
-    "D-C03-yearday366": lambda v: v["case"].get("law") == "yearday" and v["case"].get("yearday") == 366
-    and bool(v["case"].get("leap")) and v["case"].get("res") == "ok d %d 12 30 0 0 0 0" % v["case"].get("year"),
-}
+KNOWN = {}     # D-C03-yearday366 was repaired in /repo (see known_findings.d/00-fixed.json); the yearday streams above report it again
 
 
 def replay(ctx, payload):
@@ -307,7 +326,11 @@ def replay(ctx, payload):
     if law == "yearday":
         x = L.parse_t(c["x"].split())
         res = x + relativedelta(yearday=c["yearday"])
-        e = datetime.date(c["year"], 1, 1) + datetime.timedelta(days=c["yearday"] - 1)
+        if c["yearday"] == 366 and not calendar.isleap(c["year"]):
+            ed = datetime.date(c["year"], 12, 31)
+        else:
+            ed = datetime.date(c["year"], 1, 1) + datetime.timedelta(days=c["yearday"] - 1)
+        e = x.replace(year=ed.year, month=ed.month, day=ed.day)
         print("%s + relativedelta(yearday=%d) = %s; day %d of the year is %s" % (x, c["yearday"], res, c["yearday"], e))
         return res == e
     if law == "nlyearday":
